@@ -105,7 +105,7 @@ func (a *ReplicaAPI) visible(c string) bool {
 		return true
 	}
 	for _, h := range a.env.holders(c) {
-		if a.env.Net.Connected(a.idx, h) {
+		if a.env.Net.BlocksReachable(a.idx, h) {
 			return true
 		}
 	}
